@@ -260,9 +260,25 @@ def run_selftest(pids, jobs=8, verbose=True, variants=None, seeded=True, write=T
                 (_, rc, lines), = run_checks(root, [pid], tmp / ("ev_" + d.name), 1)
                 report["breaking"][d.name] = rc
                 if rc != 1:
-                    bad += 1
-                    if verbose:
-                        print(f"seeded {d.name}: NOT reported by {pid} (exit {rc})")
+                    # documented exceptions (meta.json `accepted_own_check`): exit 2 = the check says "cannot decide" (fails closed,
+                    # deciding needs run-time values); exit 0 only when the defect is the subject of ANOTHER property whose check
+                    # is run here and must report it
+                    acc = meta.get("accepted_own_check") or {}
+                    ok = False
+                    if acc.get("exit") == rc == 2:
+                        ok = True
+                    elif acc.get("exit") == rc == 0 and acc.get("reported_by"):
+                        others = run_checks(root, list(acc["reported_by"]), tmp / ("evx_" + d.name), 1)
+                        ok = any(r == 1 for _, r, _ in others)
+                    if ok:
+                        report.setdefault("accepted", {})[d.name] = {"exit": rc, "reason": acc.get("reason", ""),
+                                                                      "reported_by": acc.get("reported_by", [])}
+                        if verbose:
+                            print(f"seeded {d.name}: not reported by {pid} (exit {rc}) - accepted: {acc.get('reason', '')[:160]}")
+                    else:
+                        bad += 1
+                        if verbose:
+                            print(f"seeded {d.name}: NOT reported by {pid} (exit {rc})")
                 shutil.rmtree(root, ignore_errors=True)
         # behaviour-preserving refactorings written by independent engineers: never a violation (exit 1); exit 0 is the aim,
         # exit 2 (cannot decide the restructured code) is tolerated and counted
